@@ -59,6 +59,7 @@ CYCLE = {
   "rewrites": [
    ("X4.unsafe_block", r"unsafe \{ (.*?) \}", r"\1", 1),
    ("X4.as_ref", r"(\w+)\.as_ref\(\)", r"heap.at(&\1)", 1),
+   ("X4.strong_read_link", r"\b(node|link|this)\.strong\(\)", r"heap.at(&\1).strong()", None),
    ("X5.for_pattern", r"for \(&(\w+), &(\w+)\) in (.+?) \{", r"for kv in it: \3 {\n            let \1 = *kv.0; let \2 = *kv.1;", 1),
    ("X5.closure_mut_param", r"\.and_modify\(\|(\w+)\| (.+?)\)$", r".and_modify(|\1: &mut usize|\n" + r"""                            requires *old(count) + strong <= usize::MAX,
                             ensures *final(count) == *old(count) + strong,
